@@ -19,7 +19,7 @@ fn world() -> &'static World {
 
 fn cfg_fast() -> Cfg {
     // the repository's own test configuration (manager.rs tests::helpers::base_config)
-    Cfg { max_cached: 5, refetch_ms: 100_000, min_delay_ms: 1_000, threshold_ms: 5_000, idle_ms: 30_000, backoff: (1.0, 10.0, 2.0), issue_cache: 64, dedup_ms: 10_000, swap_thr: 0.1 }
+    Cfg { max_cached: 5, refetch_ms: 100_000, min_delay_ms: 1_000, threshold_ms: 5_000, idle_ms: 30_000, backoff: (1.0, 10.0, 2.0), jitter: 0.0, issue_cache: 64, dedup_ms: 10_000, swap_thr: 0.1 }
 }
 fn cfgs() -> Vec<Cfg> {
     vec![
